@@ -242,6 +242,11 @@ def run(chk, binary):
             put = (rng_o.random() < 0.5, rng_o.choice([1, 1, 2, 3]))
             keys_.append((str(put[1]) if put[1] > 1 else "") + ("p" if put[0] else "P"))
             cls += " then " + ("N" if put[1] > 1 else "") + ("p" if put[0] else "P")
+            if put[1] > 1 and vm is None and obj is None and rng_o.random() < 0.5:
+                # ... and the same put once more without a count: the count was the first one's own
+                put = (put[0], put[1], True)
+                keys_.append("p" if put[0] else "P")
+                cls += " then " + ("p" if put[0] else "P")
         cases.append({"text": flat + "\n", "cursor": rng_o.choice(cursors(flat)), "keys": keys_, "cls": cls, "family": "OP", "classes": [cls], "opcase": (op, mk, n, flat), "put": put, "obj": obj, "vm": vm, "cs": cs})
     vim = VR.run_vim(cases)
     ans = server_map(binary, [{"op": "keys", "text": c["text"], "cursor": c["cursor"], "keys": ["".join(c["keys"])], "last_only": True} for c in cases])
@@ -256,7 +261,8 @@ def run(chk, binary):
     vmputs = [i for i in opidx if cases[i].get("vm") and cases[i].get("put")]
     css = [i for i in opidx if cases[i].get("cs")]
     plain = [i for i in opidx if not cases[i].get("put") and not cases[i].get("obj") and not cases[i].get("vm") and not cases[i].get("cs")]
-    withput = [i for i in opidx if cases[i].get("put") and not cases[i].get("obj") and not cases[i].get("vm")]
+    withput = [i for i in opidx if cases[i].get("put") and len(cases[i]["put"]) == 2 and not cases[i].get("obj") and not cases[i].get("vm")]
+    withput2 = [i for i in opidx if cases[i].get("put") and len(cases[i]["put"]) == 3]
     skipped_objput = [i for i in opidx if cases[i].get("obj") and cases[i].get("put")]        # compared with Vim only
     res_obj = run_coq_eval("c02_obj", ["Base.Prelude", "Model.Motions", "Model.Ops", "Model.Obs"], "obj_obs",
                            [(opn[cases[i]["opcase"][0]], "Z" if cases[i]["opcase"][0] == "c" else "", txt(cases[i]["opcase"][3]), cases[i]["obj"][0], cases[i]["obj"][1], Nat(cases[i]["cursor"])) for i in objs], shard=800)
@@ -283,6 +289,9 @@ def run(chk, binary):
                              [((opn[cases[i]["opcase"][0]], "", txt(cases[i]["opcase"][3]), vmn[cases[i]["vm"][0]],
                                 (C("Some", Nat(cases[i]["vm"][1])) if cases[i]["vm"][1] else None), Nat(cases[i]["cursor"])), cases[i]["put"][0], Nat(cases[i]["put"][1])) for i in vmputs], shard=800)
     by_idx.update(zip(vmputs, res_vmput))
+    res_put2 = run_coq_eval("c02_opput2", ["Base.Prelude", "Model.Motions", "Model.Ops", "Model.Obs"], "op_put_put_obs",
+                            [(opterm(i), cases[i]["put"][0], Nat(cases[i]["put"][1])) for i in withput2], shard=800)
+    by_idx.update(zip(withput2, res_put2))
     jidx = [i for i in css if cases[i]["cs"][0] == "join"]
     res_join = run_coq_eval("c02_join", ["Base.Prelude", "Model.Motions", "Model.Ops", "Model.Obs"], "join_obs",
                             [(txt(cases[i]["opcase"][3]), Nat(cases[i]["cs"][1]), Nat(cases[i]["cursor"])) for i in jidx], shard=800)
